@@ -1297,6 +1297,16 @@ def c12fmt_run(rep, rng, tier, term):
             got = call(lambda: format(o, bad))
             if got != ('err', 'ValueError'):
                 viol.append({'oracle': 'C12.format.error', 'case': payload, 'msg': 'format(s, %r) %s, expected ValueError' % (bad, got)})
+    # an AnsiStr given as the format spec stands for its text, formatted or not
+    for (vname, v) in (("AnsiString('ab','bold')", AnsiString('ab', 'bold')), ("AnsiStr('ab','bold')", AnsiStr('ab', 'bold')), ("AnsiString('')", AnsiString(''))):
+        for spec in ('*>8:blue', '5', ':red', '-^6:[1;4', 'x<4', ''):
+            payload = {'value': vname, 'spec': spec, 'spec given as': 'AnsiStr(spec, red)'}
+            rep.count(payload, True)
+            want = call(lambda: (format(v, spec), v.to_str(spec)))
+            got1 = call(lambda: (format(v, AnsiStr(spec, 'red')), v.to_str(AnsiStr(spec, 'red'))))
+            got2 = call(lambda: (format(v, AnsiStr(spec)), v.to_str(AnsiStr(spec))))
+            if got1 != want or got2 != want:
+                viol.append({'oracle': 'C12.format', 'case': payload, 'msg': 'format(%s, %r) gives %s; the spec given as formatted AnsiStr %s, as plain AnsiStr %s' % (vname, spec, want, got1, got2)})
     # an AnsiStr is a str: as fill character it stands for its TEXT (its raw str value is its rendering)
     for (vname, v) in (("AnsiString('ab','bold')", AnsiString('ab', 'bold')), ("AnsiStr('ab','bold')", AnsiStr('ab', 'bold')), ("AnsiString('')", AnsiString(''))):
         for fill in (AnsiStr('*', 'red'), AnsiStr('.'), AnsiStr('\u00e9', 'bold', 'red')):
@@ -1664,11 +1674,17 @@ def c11_assign_ansistr_run(rep, rng, tier, term):
     viol = []
     for (vname, mk) in (("AnsiString('abc','bold')", lambda: AnsiString('abc', 'bold')), ("AnsiString('')", lambda: AnsiString('')),
                         ("AnsiString('abcdef','red') + bold[2:4]", lambda: (lambda s: (s.apply_formatting('bold', 2, 4), s)[1])(AnsiString('abcdef', 'red')))):
-        for arg in (AnsiStr('xyzw', 'red'), AnsiStr('x'), AnsiStr('', 'bold'), AnsiStr('\u00e9\u00df', 'underline')):
+        for arg in (AnsiStr('xyzw', 'red'), AnsiStr('x'), AnsiStr('', 'bold'), AnsiStr('\u00e9\u00df', 'underline'), LoudStr('xyzw'), LoudStr('')):
             a, b = mk(), mk()
-            payload = {'value': vname, 'argument': 'AnsiStr(%r, ...)' % arg.base_str}
+            plain = arg.base_str if isinstance(arg, AnsiStr) else str.__str__(arg)
+            payload = {'value': vname, 'argument': '%s(%r, ...)' % (type(arg).__name__, plain)}
             rep.count(payload, True)
-            ra, rb = call(lambda: a.assign_str(arg)), call(lambda: b.assign_str(arg.base_str))
+            ra, rb = call(lambda: a.assign_str(arg)), call(lambda: b.assign_str(plain))
+            # the text is a plain str afterwards: str(), format(), '%s' and the AnsiStr made of the value all show the same characters
+            shown = call(lambda: (type(a.base_str) is str, '{}'.format(a) == str(a), ('%s' % a) == str(a), str.__str__(AnsiStr(a)) == AnsiStr(a).to_str() == str(a)))
+            if shown != ('ok', (True, True, True, True)):
+                viol.append({'oracle': 'C11.assign.ansistr', 'case': payload, 'msg': 'after assign_str(%s): (text is a plain str, format == str, %%s == str, AnsiStr payload == rendering) = %s' % (type(arg).__name__, shown)})
+                continue
             if ra[0] != rb[0] or value_obs(a) != value_obs(b) or type(a.base_str) is not str or '\x1b' in a.base_str:
                 viol.append({'oracle': 'C11.assign.ansistr', 'case': payload,
                              'msg': 'assign_str(AnsiStr) gives %s (base_str type %s); assign_str of its text gives %s' % (describe(a), type(a.base_str).__name__, describe(b))})
